@@ -62,7 +62,8 @@ struct Init {
             Profile p; p.id = id; p.level = "exploration"; p.rule = rule;
             p.technique = "deterministic simulation: seeded search over programs x schedules on a simulated MPI job, reference-model + independent-decoder oracles";
             std::string sid = id;
-            p.gen = [gpf, sid](uint64_t seed, bool th) { return gen_program(seed, gpf(th), sid); };
+            p.gen = [gpf, sid](uint64_t seed, bool th) { GenParams g = gpf(th); if (sid == "C07") g.multi_file = (seed % 3 == 0);   // several files open at once: copy_att between files in different modes
+                return gen_program(seed, g, sid); };
             p.check = [sid](Program &q) {
                 RunOpts o; o.check_usage = (sid == "C13"); o.check_hints = (sid == "C03" || sid == "C06");   // C03: requested alignments honoured on creation (hint / __enddef precedence) and reported as in force
                 RunResult r = run_program(q, o);
@@ -535,6 +536,11 @@ struct Init {
             p.fault_kinds = {"io-error", "open-error", "close-error", "sync-error", "setview-error", "delete-error"};
             p.gen = [](uint64_t seed, bool th) {
                 GenParams g; g.multi_file = true; g.badids = true; g.close_pending = true; g.nonblocking = true; g.redef = true; g.fill = true; g.max_np = 3; g.max_data_ops = th ? 14 : 8; g.max_dimlen = 4; g.knobs = true; g.hints = (seed % 3 == 0);   // incl. intra-node aggregation state
+                if (seed % 61 == 0) {   // the open-file table: up to NC_MAX_NFILES files at once, closed in non-LIFO order, refusal of the next one
+                    Program m; m.seed = seed; m.cfg.profile = "C17"; sim::Rng mr(seed * 31 + 7); m.cfg.sim.nprocs = 1 + (int)mr.below(2); m.cfg.sim.node_of.assign(m.cfg.sim.nprocs, 0); m.cfg.format = 1;
+                    Op o; o.kind = OP_MANYFILES; o.file = 0; static const long long n1s[] = {1024, 600, 1023, 700, 513}; o.a[0] = n1s[mr.below(5)]; o.a[1] = (long long)mr.range(1, 200); o.a[2] = (long long)mr.below(3); m.ops.push_back(o);
+                    return m;
+                }
                 Program q = gen_program(seed, g, "C17");
                 if (seed % 2) {
                     sim::Rng rng(seed * 7919 + 13); int nf = 1 + (int)rng.below(2);
